@@ -1,4 +1,5 @@
 """C13 - monitor notifications are a well-nested, complete account of execution (DESIGN 4/C13)."""
+import re
 from .. import facts, exc, path, cfg as cfgm, tab
 from ..facts import AnalysisBroken, strip, sub, locstr
 from .C07 import INFEASIBLE
@@ -144,6 +145,47 @@ def protocol_dfa():
     t.setdefault('END', {})
     t.setdefault('A2', {})
     return path.make_dfa(t), {'S0', 'P1', 'END', 'A1', 'A2'}
+
+
+def audit_rules_c13(rep, fb):
+    """R13.7 - R13.10 (audit round)"""
+    from .C08 import edge_dominates
+    rep.rule('R13.7', 'LambdaMonitor registers a callback for one side only: every setter with an `after` flag assigns its before- or its after-member under the test of that flag, nothing unconditionally (a callback registered for "after" must not also fire before)')
+    n7 = 0
+    for f in fb.funcs.values():
+        if f.rec != 'uscxml::LambdaMonitor' or not f.d.get('body') or not any(p_['name'] == 'after' for p_ in f.d.get('params', [])):
+            continue
+        n7 += 1
+        loose = [n for n in f.walk() if n['k'] in ('CXXOperatorCallExpr', 'BinaryOperator') and n.get('op') == '=' and any(
+            x['k'] == 'MemberExpr' and re.match(r'_(before|after|on)', x['ref'].get('name') or '') for x in sub(n['c'][1] if n['k'] == 'CXXOperatorCallExpr' else n['c'][0])) and not any(
+            a_['k'] == 'IfStmt' for a_ in f.ancestors(n))]
+        rep.check(not loose, 'R13.7', 'LambdaMonitor::' + f.q.split('::')[-1], locstr(loose[0]) if loose else f.where(), 'LambdaMonitor::%s %s' % (f.q.split('::')[-1],
+                  'assigns under the flag only' if not loose else 'assigns `%s` UNCONDITIONALLY: a callback registered with after = true is also installed as the before-callback (fires twice per state, replaces a registered before-callback)' % ' '.join(fb.text(loose[0]).split())[:50]))
+    rep.minimum('R13.7', n7, 4, 'LambdaMonitor setters with an `after` flag')
+    rep.rule('R13.8', 'uninvoking is announced only for announced invocations: in BasicContentExecutor::invoke the invokeid user datum (on which uninvoke() decides) is stored after every evaluation that can fail, i.e. no param / namelist / content evaluation lies between the store and the beforeInvoking notice')
+    inv = fb.fn('uscxml::BasicContentExecutor::invoke')
+    g = cfgm.CFG(inv)
+    store = [n for n in inv.walk() if n['k'] == 'CXXMemberCallExpr' and n.get('callee', {}).get('q', '').split('::')[-1] == 'setUserData' and n['id'] in g.pos]
+    notice = [n for n in inv.walk() if n['id'] in g.pos and n['k'] == 'CXXMemberCallExpr' and n.get('callee', {}).get('q', '').endswith('::beforeInvoking')]
+    if not store or not notice:
+        raise AnalysisBroken('BasicContentExecutor::invoke: store of the invokeid user datum (%d) or beforeInvoking notice (%d) not found' % (len(store), len(notice)))
+    evals = [n for n in inv.walk() if n['id'] in g.pos and n['k'] in ('CXXMemberCallExpr', 'CallExpr') and n.get('callee', {}).get('q', '').split('::')[-1] in ('evalAsData', 'evalAsBool', 'processParams', 'processNameLists', 'elementAsData', 'assign')]
+    between = [e for e in evals if g.can_reach(g.pos[store[0]['id']], [e['id']]) is not None and g.can_reach(g.pos[e['id']], [notice[0]['id']]) is not None]
+    rep.check(not between, 'R13.8', 'invoke|user datum vs notice', locstr(store[0]), 'between the store of the invokeid user datum and beforeInvoking there %s' % (
+        'is no evaluation that can fail' if not between else 'are %d evaluations that can fail (first: %s): <invoke><param expr="1 +* 1"/> gets no invoking notices but an uninvoking pair when its state is left' % (len(between), locstr(between[0]))))
+    rep.rule('R13.9', 'no stable-configuration notice without a macrostep: deserialize() of both engines restores the STABLE flag (a snapshot is only taken at a stable point), so the first step after a restore does not announce a stable configuration it has not reached')
+    for eng in ('uscxml::LargeMicroStep', 'uscxml::FastMicroStep'):
+        d = fb.fn(eng + '::deserialize')
+        sets_stable = any(m[0] == 'USCXML_CTX_STABLE' for x in d.walk() for m in (x.get('mac') or []))
+        rep.check(sets_stable, 'R13.9', eng.split('::')[-1] + '::deserialize', d.where(), '%s::deserialize %s' % (eng.split('::')[-1], 'restores STABLE' if sets_stable else
+                  'sets INITIALIZED only: the next step() finds STABLE unset and issues onStableConfiguration with 0 microsteps and no event processed'))
+    rep.rule('R13.10', 'one monitor set per step: the engines (which copy the set at the top of step()) and the content executor (which notifies from inside that step) use the same set')
+    be = [f for f in fb.funcs.values() if f.rec == 'uscxml::BasicContentExecutor' and f.d.get('body')]
+    live = [n for f in be for n in f.walk() if n.get('callee', {}).get('q', '').endswith('getMonitors')]
+    copies = [n for q in ('uscxml::LargeMicroStep::step', 'uscxml::FastMicroStep::step') for n in fb.fn(q).walk() if n['k'] == 'DeclStmt' and any(
+        'init' in d_ and any(x.get('callee', {}).get('q', '').endswith('getMonitors') for x in sub(d_['init'])) and '&' not in (d_.get('t') or '') for d_ in n.get('decls', []))]
+    rep.check(not (live and copies), 'R13.10', 'monitor set', locstr(live[0]) if live else 'src/uscxml/interpreter/BasicContentExecutor.cpp', 'the engines %s and the content executor %s' % (
+        'copy the monitor set once per step' if copies else 'read the live set', 're-reads the LIVE set for every notice (%d sites): a monitor attached from a callback mid-step receives executing-content notices with no enclosing micro-step or state bracket' % len(live) if live else 'is handed the same set'))
 
 
 def run(rep, tier):
@@ -306,3 +348,5 @@ def run(rep, tier):
             else:
                 rep.fail('R13.2', '%s|%s in %s' % (name, v['event'], v['state']), f.where(), '%s in state %s' % (v['event'], v['state']), path=steps)
     rep.minimum('R13.2', nexp, 7, 'monitor macro expansions in BasicContentExecutor')
+    # ---- R13.7 .. R13.10
+    audit_rules_c13(rep, fb)
